@@ -333,6 +333,9 @@ class GenBinding:
             "ctx_1d": lambda: mab.partial_fit([first], [r1], [0.0] * self.dims),
             "ctx_3d": lambda: mab.partial_fit([first], [r1], [[[0.0] * self.dims]]),
             "clusters_too_few_rows": lambda: mab.fit([first], [r1], ctx1),
+            # the FIRST training call of a never-fitted bandit made through partial_fit (it trains from scratch) and rejected
+            # inside training: the bandit must still be unfitted afterwards
+            "first_pfit_too_few_rows": lambda: mab.partial_fit([first], [r1], ctx1),
             "predict_missing_contexts": lambda: mab.predict(),
             "predict_bad_context_type": lambda: mab.predict_expectations("abc"),
             "predict_unfitted": lambda: mab.predict(*C(ctx1)),
@@ -396,6 +399,7 @@ class GenBinding:
                       "ctx_3d", "predict_missing_contexts"}
         if self.np in ("clusters", "clusters-mb"):
             kinds.add("clusters_too_few_rows")
+            kinds.add("first_pfit_too_few_rows")
         return kinds
 
     # ---- comparison ------------------------------------------------------------
